@@ -4,7 +4,7 @@
 W="$1"; MUTS="$2"; CHECKS="$3"; SCALE="${4:-0.3}"
 mkdir -p "$W/out"
 for m in $MUTS; do
-  rsync -a --exclude target --exclude .git /repo/ "$W/repo/"
+  rsync -a --exclude target --exclude .git /repo/ "$W/repo/"; touch "$W/repo/ciphercore-base/src/lib.rs"
   python3 /verif/tools/mutants.py "$W/repo" "$m" >/dev/null || { echo "$m: APPLY FAILED"; continue; }
   (cd "$W/harness" && cargo build --release --offline -j8 >"$W/out/build-$m.log" 2>&1) || { echo "$m: BUILD FAILED"; continue; }
   for c in $CHECKS; do
@@ -15,4 +15,4 @@ for m in $MUTS; do
     echo "$m $c exit=$rc $((t1-t0))s $(echo "$out" | grep -m1 -A1 VIOLATION | tr '\n' ' ' | cut -c1-260)"
   done
 done
-rsync -a --exclude target --exclude .git /repo/ "$W/repo/"
+rsync -a --exclude target --exclude .git /repo/ "$W/repo/"; touch "$W/repo/ciphercore-base/src/lib.rs"
